@@ -3,6 +3,7 @@
 import json, sys
 pid = sys.argv[1]
 wt = sys.argv[2]
+focus = sys.argv[3] if len(sys.argv) > 3 else ''
 for l in open('/verif/properties.jsonl'):
     p = json.loads(l)
     if p['id'] == pid:
@@ -18,7 +19,7 @@ YOUR TASK: produce a realistic change (a bug a developer could plausibly introdu
   1. the library still imports and the EXISTING test suite still passes completely, and
   2. the property above is violated,
   3. the violation needs something SPECIFIC to manifest - an unusual input, a particular configuration or shape, a multi-step sequence of operations, a fault at a particular point, or two cooperating edited sites that each look fine alone - NOT something ordinary use would expose at once (otherwise the existing tests would fail anyway).
-Prefer a subtle semantic change in the functions named in the hint over anything cosmetic. One to three small edits. Do not add new dependencies. Do not edit or delete tests.
+Prefer a subtle semantic change in the functions named in the hint over anything cosmetic.{(' For THIS task, place the change in this part of the mechanism (not elsewhere): ' + focus + '.') if focus else ''} One to three small edits. Do not add new dependencies. Do not edit or delete tests.
 
 HOW TO RUN THINGS (no network; everything is installed):
   - python: /venv/bin/python  (run it with cwd={wt} so that `import glotaran` picks up YOUR worktree; check with: cd {wt} && /venv/bin/python -c "import glotaran; print(glotaran.__file__)")
